@@ -226,27 +226,37 @@ def readiness_semantics(check: Check) -> None:
     def contains(ex_, e, c, x):
         if c.cls == "Text":
             s_ = "".join(q for q in x.parts if isinstance(q, str)) if isinstance(x, FString) else x
-            if s_ in (" and ", "and"):
-                return c.fields["has_and"]
-            if s_ in (" or ", "or"):
-                return c.fields["has_or"]
+            if isinstance(s_, str) and s_.strip() in ("and", "or") and s_ in (" and ", "and", " or ", "or"):
+                return s_.strip() in c.fields["tokens"]
             raise Unknown(f"Engine.is_ready: searching the antecedent text for {s_!r} is outside the model")
         raise Unknown(f"Engine.is_ready: membership in {c.cls} is outside the model")
 
     def split(ex_, e, recv, args, kw):
         if isinstance(recv, MObj) and recv.cls == "Text":
-            return ["a"] + (["and", "b"] if recv.fields["has_and"] else []) + (["or", "c"] if recv.fields["has_or"] else [])
+            return list(recv.fields["tokens"])
         raise Unknown("Engine.is_ready: split of something that is not the antecedent text")
 
     hooks = {"contains": contains, "method:split": split, "method:is_loaded": lambda ex_, e, recv, args, kw: True,
-             "method:count": lambda ex_, e, recv, args, kw: (int(recv.fields["has_and"]) if args and args[0] in (" and ", "and") else int(recv.fields["has_or"]))
-             if isinstance(recv, MObj) and recv.cls == "Text" else 0}
+             "method:count": lambda ex_, e, recv, args, kw: recv.fields["tokens"].count(args[0].strip()) if isinstance(recv, MObj) and recv.cls == "Text" and args and isinstance(args[0], str) else 0}
+    # the antecedents of the first model rule: text and loaded expression tree (and binds tighter than or; parentheses override)
+    P = lambda n_: MObj("Proposition", {"variable": None, "hedges": [], "term": None, "name": n_, "__bases__": ("Expression",)})  # noqa: E731
+    O = lambda n_, l_, r_: MObj("Operator", {"name": n_, "left": l_, "right": r_, "__bases__": ("Expression",)})  # noqa: E731
+    SHAPES = {
+        "a": (["a"], lambda: P("a")),
+        "a and b": (["a", "and", "b"], lambda: O("and", P("a"), P("b"))),
+        "a or b": (["a", "or", "b"], lambda: O("or", P("a"), P("b"))),
+        "a and b or c": (["a", "and", "b", "or", "c"], lambda: O("or", O("and", P("a"), P("b")), P("c"))),
+        "a or b and c": (["a", "or", "b", "and", "c"], lambda: O("or", P("a"), O("and", P("b"), P("c")))),
+        "a and ( b or c )": (["a", "and", "(", "b", "or", "c", ")"], lambda: O("and", P("a"), O("or", P("b"), P("c")))),
+        "( a or b ) and c": (["(", "a", "or", "b", ")", "and", "c"], lambda: O("and", O("or", P("a"), P("b")), P("c"))),
+    }
     helpers = {k: v for k, v in fn.cls.methods.items() if k.startswith("_") and not k.startswith("__")}
     rule_ns = MObj("class", {"AND": "and", "OR": "or", "IS": "is", "IF": "if", "THEN": "then", "WITH": "with"})
     try:
-        for has_and, has_or, c1, c2, conj, disj, impl, agg, dfz, off in itertools.product((True, False), (True, False), concl_sets, concl_sets[:2], (True, False), (True, False),
-                                                                                          (True, False), (True, False), (True, False), (False, True)):
+        for shape, c1, c2, conj, disj, impl, agg, dfz, off in itertools.product(list(SHAPES), concl_sets, concl_sets[:2], (True, False), (True, False),
+                                                                                (True, False), (True, False), (True, False), (False, True)):
             cases += 1
+            has_and, has_or = "and" in SHAPES[shape][0], "or" in SHAPES[shape][0]
             term = MObj("Term", {"name": "t"})
             integral = MObj("Centroid", {"__bases__": ("IntegralDefuzzifier", "Defuzzifier")})
             weighted = MObj("WeightedAverage", {"__bases__": ("WeightedDefuzzifier", "Defuzzifier")})
@@ -257,14 +267,14 @@ def readiness_semantics(check: Check) -> None:
             iv = MObj("InputVariable", {"name": "in", "terms": [term], "__len__": 1, "enabled": True, "__bases__": ("Variable",)})
             by = {"m": ov_m, "t": ov_t}
 
-            def mk_rule(a: bool, o: bool, concl: tuple, enabled: bool = True) -> MObj:
-                return MObj("Rule", {"antecedent": MObj("Antecedent", {"text": MObj("Text", {"has_and": a, "has_or": o, "__bool__": True})}),
+            def mk_rule(shape_: str, concl: tuple, enabled: bool = True) -> MObj:
+                return MObj("Rule", {"antecedent": MObj("Antecedent", {"text": MObj("Text", {"tokens": SHAPES[shape_][0], "__bool__": True}), "expression": SHAPES[shape_][1]()}),
                                      "consequent": MObj("Consequent", {"conclusions": [MObj("Proposition", {"variable": by[k], "hedges": [], "term": term}) for k in concl]}),
                                      "enabled": enabled, "weight": 1.0})
 
             # a disabled rule is still loaded: every activation method computes its degree (and needs the connectives' operators); only its
             # conclusions are never applied, so it does not need the implication
-            rules = [mk_rule(has_and, has_or, c1, not off), mk_rule(False, False, c2)]
+            rules = [mk_rule(shape, c1, not off), mk_rule("a", c2)]
             rb = MObj("RuleBlock", {"name": "block", "rules": rules, "__len__": 2, "enabled": True, "conjunction": MObj("Minimum", {}) if conj else None,
                                     "disjunction": MObj("Maximum", {}) if disj else None, "implication": MObj("Minimum", {}) if impl else None,
                                     "activation": MObj("General", {})})
@@ -272,7 +282,8 @@ def readiness_semantics(check: Check) -> None:
             errors: list = []
             ex = AbsExec(fn.qualname, hooks, helpers=helpers)
             ex.globals = {"Rule": rule_ns, "IntegralDefuzzifier": ("class", "IntegralDefuzzifier"), "WeightedDefuzzifier": ("class", "WeightedDefuzzifier"),
-                          "OutputVariable": ("class", "OutputVariable"), "InputVariable": ("class", "InputVariable"), "Variable": ("class", "Variable")}
+                          "OutputVariable": ("class", "OutputVariable"), "InputVariable": ("class", "InputVariable"), "Variable": ("class", "Variable"),
+                          "Operator": ("class", "Operator"), "Proposition": ("class", "Proposition"), "Expression": ("class", "Expression")}
             env = {params[0]: engine, params[1] if len(params) > 1 else "errors": errors}
             try:
                 ex.block(list(node.body), env)
@@ -284,15 +295,15 @@ def readiness_semantics(check: Check) -> None:
                 continue
             need = {"conjunction": has_and and not conj, "disjunction": has_or and not disj,
                     "implication": (("m" in c1 and not off) or "m" in c2) and not impl, "aggregation": not agg, "defuzzifier": not dfz}
-            what = (f"first rule{' (disabled)' if off else ''} with{'' if has_and else 'out'} `and`, with{'' if has_or else 'out'} `or`, conclusions {list(c1)} / {list(c2)}; present: conjunction={conj}, "
+            what = (f"first rule{' (disabled)' if off else ''} `if {shape} then ...`, conclusions {list(c1)} / {list(c2)}; present: conjunction={conj}, "
                     f"disjunction={disj}, implication={impl}, aggregation={agg}, defuzzifier={dfz}")
             if ret is not (not errors):
                 bad.setdefault("result", f"{what}: is_ready returns {ret} with {len(errors)} error(s) reported")
             if not any(need.values()) and errors:
                 spurious.setdefault("spurious", f"{what}: nothing that is needed is missing, but {len(errors)} error(s) are reported")
-            results[(has_and, has_or, c1, c2, conj, disj, impl, agg, dfz, off)] = (sorted(repr(freeze(x)) for x in errors), need, what)
+            results[(shape, c1, c2, conj, disj, impl, agg, dfz, off)] = (sorted(repr(freeze(x)) for x in errors), need, what)
         # every missing operator is reported: the errors with the operator missing differ from those of the same engine with the operator present
-        position = {"conjunction": 4, "disjunction": 5, "implication": 6, "aggregation": 7, "defuzzifier": 8}
+        position = {"conjunction": 3, "disjunction": 4, "implication": 5, "aggregation": 6, "defuzzifier": 7}
         for cfg, (errs, need, what) in results.items():
             for kind, missing in need.items():
                 if not missing or kind in bad:
